@@ -241,6 +241,11 @@ def corner_calls(M, rec, rng, reps):
             dm = rng.choice((0.0, qcap, rng.uniform(0, 2 * qcap), max(0.0, qcap - w / T)))
             if math.isinf(d):
                 dm = math.inf
+            if rng.random() < 0.15:
+                # the lane count as an element of a down-cast integer table, the critical density a whole number
+                lam = rng.choice((np.int8, np.uint8, np.int16))(rng.choice((3, 4)))
+                rc = int(round(rc)) + rng.choice((0, 10, 20))
+                rec.count("corner_calls_with_a_narrow_integer_lane_count")
             E.OriginsEngine.get_mainstream_flow(s(dm), s(w), s(vc), s(v1), rc, a, vf, lam, T)
 
 
